@@ -53,6 +53,12 @@ CHECKS = {
  'C14': ('reference-model oracle (interpreter with exact hand-written unit table) over definition/modification chains',
          'Chains of a definition or declaration followed by typed/untyped modifications (zero, negative, false, none, empty string, same/other prefix, compound and custom units, arrays) anywhere in the hierarchy are parsed by the real code; the final value, type and unit must equal the model and the four must-fail classes (other dtype, other dimension, constant, declared-never-assigned) must raise.',
          'Unit factors are hard-coded exact linear factors plus the $unit definitions of the program; buggy-twin interpreters classify the recorded mechanisms.', '5/C14'),
+ 'C15': ('reference interpreter over block trees: small-scope core enumerated completely + random nested programs; known mechanisms classified by taint',
+         'All block shapes with <= 3 clauses, nesting <= 2, both closure styles, all truth assignments and node positions are enumerated in both tiers, plus random programs (nesting <= 5, blocks under groups, conditions over earlier nodes, property lines); the environment of the real parser must contain exactly the items whose enclosing clauses are all selected; misplaced @else/@end must fail. A deviation counts as a known finding only if every differing key is written by a node tainted by that mechanism and the direction fits; shape-free programs are judged strictly. The DIP.parse post-condition of C16 is evaluated on every returned environment.',
+         'Trusts vt/refmodel/dip_ref_c15.py (checked against the documented and tested examples).', '5/C15'),
+ 'C16': ('generated programs with known accept/reject verdict + icontract post-condition on the real DIP.parse re-checking every returned node',
+         'Options (per-line and list form, with units), numeric/boolean/string conditions, anchored formats, dimension bounds and declared-without-value are generated with final values on, within 1e-9 of, or >= 1e-3 off each boundary; an independent evaluator decides accept/reject and both directions are verdicts; every environment any workload (and, in the thorough tier, the repository DIP tests) gets back from parse() is re-checked node by node against the constraints stored on it.',
+         'Unanchored formats and values inside the tolerance bands are not generated; option units use hard-coded exact factors.', '5/C16'),
  'C19': ('external readers as oracle: gcc/g++/gfortran/rustc printer programs, bash declare -p, json/yaml/toml loaders and DIP re-parse read the real exporter output back',
          'For generated environments (every dtype/width, rank 1-3 arrays, none, quoted strings, boundary integers, 17-digit floats, dotted paths, units) and every back-end/option/selection the exported text is compiled or loaded by the format own reader and names, symbol set, declared type/width/signedness, shape, element order and values are compared with the environment; known defects are recognised by exact read-back signatures (buggy twins) and the affected symbols are removed and the file re-read so the rest stays strict.',
          'Trusts gcc 12, g++ 12, gfortran 12, rustc, bash 5 and the Python json/yaml/tomllib loaders as readers of their own formats.', '5/C19'),
